@@ -68,3 +68,23 @@ package cty
 //@   ensures[C19] ok: (=> (= result.1 nil.Any) (or (wf_deep result.0) (and (= (Slice.len p) 0) (= result.0 val))))
 //@   ensures[C19] errnil: (=> (not (= result.1 nil.Any)) (= result.0 $G<cty.NilVal>))
 //@   loop 1 invariant (or (wf_deep val) (and (= $i 0) (= val $p.val)))
+//
+// transform (C19): for an identity transformer, a value that is not rebuilt - null, unknown, of a
+// primitive or capsule type, an empty collection or the empty object - is returned as it is (marks
+// included). The rebuilding branches are not under contract yet.
+//@ func (cty.Transformer).Enter
+//@   trusted
+//@   ensures (=> (tr_identity recv) (and (= result.0 arg1) (= result.1 nil.Any)))
+//
+//@ func (cty.Transformer).Exit
+//@   trusted
+//@   ensures (=> (tr_identity recv) (and (= result.0 arg1) (= result.1 nil.Any)))
+//
+//@ func cty.transform
+//@   tags C19 C04
+//@   may_panic
+//@   requires (wf_deep val)
+//@   let t0 (vty val)
+//@   let leaf (or (is_null val) (not (is_known val)) (is_prim_ty t0) (is_capsule_ty t0) (is_dyn_ty t0))
+//@   let emptycoll (and (or (is_list_ty t0) (is_set_ty t0) (is_tuple_ty t0) (is_map_ty t0)) (= (len_int (unmark val)) 0))
+//@   ensures[C19,C04] untouched: (=> (and (tr_identity t) (or leaf emptycoll)) (and (= result.1 nil.Any) (= result.0 val)))
